@@ -240,4 +240,7 @@ pub fn run(g: &mut Global) {
         },
         &|c, ctx| crate::props::c13::check_mode(c, ctx, "C09", true, true),
     );
+    if g.tier == Tier::Thorough {
+        g.fuzz_stage("ops_pred", Some(2), 600_000, "random", &|b| crate::fuzzdec::decode_c09(b), &check);
+    }
 }
